@@ -403,6 +403,9 @@ impl Query {
             })
             .collect();
         f.insert("aggregate", if aggs.is_empty() { "none".into() } else { aggs.join("+") });
+        // aliases used by other checkers' signatures
+        f.insert("agg", f["aggregate"].clone());
+        f.insert("window", f["skip_limit"].clone());
         f.insert("group", if self.has_agg() && self.items.iter().any(|i| !i.is_agg()) { "yes" } else { "no" }.into());
         let kinds: Vec<&str> = self
             .items
